@@ -68,11 +68,17 @@ Definition vc_names : list string :=
   ["@context"; "id"; "type"; "credentialSubject"; "issuanceDate"; "expirationDate"; "proof"; "credentialStatus";
    "issuer"; "credentialSchema"; "evidence"; "termsOfUse"; "refreshService"; "_sd_alg"].
 
-Lemma raw_vc_keys : forall v x, In x (keys (raw_vc v)) -> In x vc_names.
+Lemma keys_issuer_member : forall w s x, In x (keys (issuer_member w s)) -> x = "issuer".
 Proof.
-  intros v x H. unfold raw_vc in H. repeat rewrite keys_app in H.
+  intros w s x H. unfold issuer_member in H. destruct w; [cbn in H; destruct H as [H|[]]; auto|].
+  destruct (s_cf s); [destruct (id_of s =? ""); cbn in H; [destruct H|destruct H as [H|[]]; auto]|cbn in H; destruct H as [H|[]]; auto].
+Qed.
+
+Lemma raw_vc_keys : forall w v x, In x (keys (raw_vc w v)) -> In x vc_names.
+Proof.
+  intros w v x H. unfold raw_vc in H. repeat rewrite keys_app in H.
   repeat (apply in_app_or in H; destruct H as [H|H]);
-    try (apply keys_opt_member in H); try (apply keys_emit_str in H);
+    try (apply keys_opt_member in H); try (apply keys_emit_str in H); try (apply keys_issuer_member in H);
     try (cbn in H; destruct H as [H|[]]; symmetry in H);
     subst x; cbn; tauto.
 Qed.
@@ -107,9 +113,9 @@ Proof.
   destruct (emitted_on_parse m f); cbn in Hi; [destruct Hi as [Hi|Hi]; auto|auto].
 Qed.
 
-Lemma parse_vc_cf : forall m v, parse_vc (JObj m) = Some v -> v_cf v = top_cf rawCredential_fields m.
+Lemma parse_vc_cf : forall w m v, parse_vc w (JObj m) = Some v -> v_cf v = top_cf rawCredential_fields m.
 Proof.
-  intros m v H. cbn in H. unfold bind in H.
+  intros w m v H. cbn in H. unfold bind in H.
   repeat match type of H with
          | match ?e with _ => _ end = _ => destruct e; [|discriminate]
          end.
@@ -117,19 +123,19 @@ Proof.
 Qed.
 
 (* a custom member (a name that is not one of the raw struct's members) comes back as its float64 image *)
-Lemma vc_custom_member : forall m v k,
-  parse_vc (JObj m) = Some v ->
+Lemma vc_custom_member : forall w w' m v k,
+  parse_vc w (JObj m) = Some v ->
   ~ In k (map (fun f => fst (fst f)) rawCredential_fields) ->
-  match marshal_vc v with JObj o => lookup o k | _ => None end = option_map (fun x => f64j (f64j x)) (lookup m k).
+  match marshal_vc w' v with JObj o => lookup o k | _ => None end = option_map (fun x => f64j (f64j x)) (lookup m k).
 Proof.
-  intros m v k Hp Hk. unfold marshal_vc. cbn [f64j].
+  intros w w' m v k Hp Hk. unfold marshal_vc. cbn [f64j].
   rewrite lookup_f64j_obj. unfold merge_cf. rewrite lookup_app.
-  rewrite (lookup_none_notin (raw_vc v)).
+  rewrite (lookup_none_notin (raw_vc w' v)).
   2:{ intro Hi. apply raw_vc_keys in Hi. apply Hk. cbn. cbn in Hi. tauto. }
-  rewrite (lookup_filter (fun x => negb (mem x (keys (raw_vc v))))).
+  rewrite (lookup_filter (fun x => negb (mem x (keys (raw_vc w' v))))).
   rewrite mem_false_notin.
   2:{ intro Hi. apply raw_vc_keys in Hi. apply Hk. cbn. cbn in Hi. tauto. }
-  cbn [negb]. rewrite (parse_vc_cf _ _ Hp). rewrite top_cf_lookup by exact Hk.
+  cbn [negb]. rewrite (parse_vc_cf _ _ _ Hp). rewrite top_cf_lookup by exact Hk.
   destruct (lookup m k); reflexivity.
 Qed.
 
